@@ -204,8 +204,20 @@ func (s *mtcpSim) body() {
 	var received [][]byte
 	var clientMsgs []cla.ConvergenceMessageType
 	var otherServerMsgs int
+	var gateMu sync.Mutex
+	var gate chan struct{} // non-nil: the consumer of the server's channel is busy elsewhere until it is closed
 	go func() {
-		for cs := range serv.reportChan {
+		for {
+			gateMu.Lock()
+			g := gate
+			gateMu.Unlock()
+			if g != nil {
+				<-g
+			}
+			cs, ok := <-serv.reportChan
+			if !ok {
+				return
+			}
 			if cs.MessageType == cla.ReceivedBundle {
 				var buf bytes.Buffer
 				_ = cs.Message.(cla.ConvergenceReceivedBundle).Bundle.MarshalCbor(&buf)
@@ -244,6 +256,57 @@ func (s *mtcpSim) body() {
 		case "advance":
 			time.Sleep(time.Duration(op.N)*time.Millisecond + 137*time.Microsecond)
 			synctest.Wait()
+		case "send_burst":
+			// several bundles back to back, no pause in between: they reach the server as one burst
+			var batch []*sent
+			var bundles []bpv7.Bundle
+			for k := 0; k < int(op.N); k++ {
+				seq++
+				pay := []byte(fmt.Sprintf("M%03d|burst", seq))
+				b, err := bpv7.Builder().CRC(bpv7.CRC32).Source("dtn://cli/a").Destination("dtn://srv/b").CreationTimestampNow().Lifetime("1h").PayloadBlock(pay).Build()
+				if err != nil {
+					s.res.HarnessErr = err.Error()
+					return
+				}
+				b.PrimaryBlock.CreationTimestamp[1] = uint64(seq)
+				var buf bytes.Buffer
+				_ = b.MarshalCbor(&buf)
+				st := &sent{wire: buf.Bytes(), afterCut: cutHappened}
+				sends = append(sends, st)
+				batch = append(batch, st)
+				bundles = append(bundles, b)
+			}
+			go func() {
+				for k, b := range bundles {
+					batch[k].err = client.Send(b)
+					batch[k].returned = true
+				}
+			}()
+			synctest.Wait()
+			for k, st := range batch {
+				if !st.returned {
+					s.res.Violate("C12", "send-returns", "mtcp-send-does-not-return", "Send %d of a burst of %d did not return", k, len(batch))
+					break
+				}
+			}
+		case "hold":
+			// the node above the server is slow: it stops taking bundles from the server's channel ...
+			gateMu.Lock()
+			if gate == nil {
+				gate = make(chan struct{})
+				s.res.Fault("slow_consumer")
+			}
+			gateMu.Unlock()
+			synctest.Wait()
+		case "release":
+			// ... and comes back: what piled up must come out in the order it was sent
+			gateMu.Lock()
+			if gate != nil {
+				close(gate)
+				gate = nil
+			}
+			gateMu.Unlock()
+			synctest.Wait()
 		case "peer_close":
 			// the server closes the connection after having consumed everything sent so far
 			synctest.Wait()
@@ -279,6 +342,12 @@ func (s *mtcpSim) body() {
 			}
 		}
 	}
+	gateMu.Lock()
+	if gate != nil {
+		close(gate)
+		gate = nil
+	}
+	gateMu.Unlock()
 	synctest.Wait()
 	mu.Lock()
 	defer mu.Unlock()
@@ -358,6 +427,13 @@ func genMtcpCase(seed uint64, tier, focus, variant string) *simk.Case {
 	c.Cfg["cut_at"] = -1
 	if r.Bool(0.6) {
 		c.Cfg["cut_at"] = r.Range(0, total)
+	}
+	if rb := simk.NewRand(seed, "burst"); rb.Bool(0.3) {
+		// a slow consumer above the server, a burst of bundles meanwhile, then the consumer comes back
+		at := rb.Intn(len(c.Ops) + 1)
+		ops := append([]simk.Op(nil), c.Ops[:at]...)
+		ops = append(ops, simk.Op{K: "hold"}, simk.Op{K: "send_burst", N: int64(rb.Range(2, 12))}, simk.Op{K: "release"})
+		c.Ops = append(ops, c.Ops[at:]...)
 	}
 	if rf := simk.NewRand(seed, "fin"); rf.Bool(0.25) {
 		// instead of a reset in mid-stream: the server closes cleanly between two operations
